@@ -274,7 +274,44 @@ func (p poly) String() string {
 
 // polyOf turns an SSA integer expression into a polynomial; anything that is not
 // +, -, * or a constant becomes an opaque symbol named sym(v).
-func polyOf(v ssa.Value, sym func(ssa.Value) string) poly {
+func polyOf(v ssa.Value, sym func(ssa.Value) string) poly { return polyOfEnv(v, sym, nil, 0) }
+
+// polyOfEnv: like polyOf, with parameters bound to polynomials (env) and calls of pure
+// straight-line functions of the module (one block, one result, no effects: `firstChildPosition(pos, bf)`)
+// replaced by the polynomial of what they return.
+func polyOfEnv(v ssa.Value, sym func(ssa.Value) string, env map[*ssa.Parameter]poly, depth int) poly {
+	if prm, ok := v.(*ssa.Parameter); ok && env != nil {
+		if pl, ok := env[prm]; ok {
+			return pl
+		}
+	}
+	if call, ok := v.(*ssa.Call); ok && depth < 3 {
+		if cal := call.Call.StaticCallee(); cal != nil && cal.Blocks != nil && len(cal.Blocks) == 1 && inModule(funcPkgPath(cal)) && cal.Signature.Results().Len() == 1 {
+			pure := true
+			var ret *ssa.Return
+			for _, in := range cal.Blocks[0].Instrs {
+				switch x := in.(type) {
+				case *ssa.BinOp, *ssa.Convert, *ssa.ChangeType, *ssa.DebugRef:
+				case *ssa.Return:
+					ret = x
+				default:
+					pure = false
+				}
+			}
+			if pure && ret != nil && len(ret.Results) == 1 && len(cal.Params) == len(call.Call.Args) {
+				inner := map[*ssa.Parameter]poly{}
+				for i, prm := range cal.Params {
+					inner[prm] = polyOfEnv(call.Call.Args[i], sym, env, depth+1)
+				}
+				return polyOfEnv(ret.Results[0], sym, inner, depth+1)
+			}
+		}
+	}
+	return polyOfEnv1(v, sym, env, depth)
+}
+
+func polyOfEnv1(v ssa.Value, sym func(ssa.Value) string, env map[*ssa.Parameter]poly, depth int) poly {
+	polyOf := func(v ssa.Value, sym func(ssa.Value) string) poly { return polyOfEnv(v, sym, env, depth) }
 	switch x := v.(type) {
 	case *ssa.Const:
 		if r, ok := constInt(x); ok && r.IsInt() {
